@@ -1,0 +1,253 @@
+//! Event recorder + schedule perturbation for the parallel graph traversal of `layout.rs`
+//! (`GraphResources::send_work`, `GroupState::do_pending_work`, `activate_group`). Compiled only with
+//! the `verif` feature; does nothing unless `WILD_VERIF_TRACE=<file>` / `WILD_VERIF_SCHED=<seed>` is
+//! set. Adds no behaviour to the protocol: hooks only observe (and delay) the calling thread.
+//!
+//! Every event is appended to the file (one unbuffered `write` per line, so a hung or killed link
+//! still leaves the prefix) while one global recorder lock is held. Hooks that describe an operation
+//! on a worker slot are called while that slot's mutex is still held, hooks around the
+//! `activations_remaining.fetch_sub` hold the recorder lock across the atomic operation
+//! (`atomic_section`), so the order of the lines is a valid linearisation of the run.
+//!
+//! Line format: `<seq> <thread> <event...>` with events
+//!   `init <num_groups>`                      `find_required_sections` created the worker slots
+//!   `activate <g>`                           activation task of group g starts (`activate_group`)
+//!   `lpush <g> <item>`                       push on the task's own `local_work`
+//!   `send <from> <to> <item> <0|1>`          `GraphResources::send_work` (under the slot lock of
+//!                                            `to`): pushed `item`, 1 = a parked worker was taken
+//!   `enter <g>`                              `do_pending_work` entered for group g
+//!   `pop <g> <item>`                         `local_work.pop()`
+//!   `park <g>` / `swap <g> <n>`              under the slot lock of g: parked / swapped in n items
+//!   `error <g>`                              `do_work` failed, group state dropped
+//!   `delay <g>`                              pushed to `delay_processing`
+//!   `finish <remaining>`                     `activations_remaining.fetch_sub(1) - 1`
+//!   `resume <g>`                             popped from `delay_processing`
+//!   `end <num_errors> <num_group_states>`    after the rayon scope
+//! `<item>` is `y<symbol>` (LoadGlobalSymbol), `c<symbol>` (CopyRelocateSymbol), `e<symbol>`
+//! (ExportDynamic), `s<file_id>.<section_index>` (LoadSection). `<from>` is `-` when the sending
+//! thread is not inside a traversal task.
+//!
+//! `perturb(point)`: with `WILD_VERIF_SCHED_LAYOUT=<seed>` or `WILD_VERIF_SCHED=<seed>` (decimal) a
+//! pseudo-random (splitmix64 of seed, thread number, per-thread counter, point) choice between
+//! nothing (1/2), `yield_now` (1/4), a short spin (1/8) and a sleep of 10..=250 microseconds (1/8).
+
+use std::cell::Cell;
+use std::io::Write as _;
+use std::sync::Mutex;
+use std::sync::MutexGuard;
+use std::sync::OnceLock;
+use std::sync::atomic::AtomicU64;
+use std::sync::atomic::Ordering;
+
+pub const ENV_TRACE: &str = "WILD_VERIF_TRACE";
+pub const ENV_SCHED: &str = "WILD_VERIF_SCHED";
+/// Takes precedence over `WILD_VERIF_SCHED`; perturbs only the layout traversal (other verif hooks
+/// listen to `WILD_VERIF_SCHED` as well).
+pub const ENV_SCHED_LAYOUT: &str = "WILD_VERIF_SCHED_LAYOUT";
+
+/// Plain description of a `WorkItem` (the enum itself is private to `layout.rs`).
+#[derive(Clone, Copy, Debug)]
+pub struct Item {
+    pub kind: char,
+    pub a: u64,
+    pub b: u64,
+}
+
+impl std::fmt::Display for Item {
+    fn fmt(&self, f: &mut std::fmt::Formatter<'_>) -> std::fmt::Result {
+        if self.kind == 's' {
+            write!(f, "s{}.{}", self.a, self.b)
+        } else {
+            write!(f, "{}{}", self.kind, self.a)
+        }
+    }
+}
+
+struct Recorder {
+    file: std::fs::File,
+    seq: u64,
+}
+
+static RECORDER: OnceLock<Option<Mutex<Recorder>>> = OnceLock::new();
+static SCHED: OnceLock<Option<u64>> = OnceLock::new();
+static NEXT_THREAD: AtomicU64 = AtomicU64::new(0);
+
+thread_local! {
+    static THREAD_NO: Cell<u64> = const { Cell::new(u64::MAX) };
+    static COUNTER: Cell<u64> = const { Cell::new(0) };
+    static CUR_GROUP: Cell<usize> = const { Cell::new(usize::MAX) };
+}
+
+fn recorder() -> Option<&'static Mutex<Recorder>> {
+    RECORDER
+        .get_or_init(|| {
+            let path = std::env::var(ENV_TRACE).ok()?;
+            let file = std::fs::OpenOptions::new()
+                .create(true)
+                .append(true)
+                .open(path)
+                .ok()?;
+            Some(Mutex::new(Recorder { file, seq: 0 }))
+        })
+        .as_ref()
+}
+
+fn sched() -> Option<u64> {
+    *SCHED.get_or_init(|| {
+        std::env::var(ENV_SCHED_LAYOUT)
+            .or_else(|_| std::env::var(ENV_SCHED))
+            .ok()?
+            .parse::<u64>()
+            .ok()
+    })
+}
+
+fn thread_no() -> u64 {
+    THREAD_NO.with(|t| {
+        if t.get() == u64::MAX {
+            t.set(NEXT_THREAD.fetch_add(1, Ordering::Relaxed));
+        }
+        t.get()
+    })
+}
+
+pub fn enabled() -> bool {
+    recorder().is_some()
+}
+
+fn write_line(r: &mut Recorder, args: std::fmt::Arguments) {
+    let line = format!("{} {} {}\n", r.seq, thread_no(), args);
+    r.seq += 1;
+    let _ = r.file.write_all(line.as_bytes());
+}
+
+fn event(args: std::fmt::Arguments) {
+    if let Some(m) = recorder() {
+        let mut r = m.lock().unwrap_or_else(|e| e.into_inner());
+        write_line(&mut r, args);
+    }
+}
+
+/// Guard returned by `atomic_section`: the recorder lock is held until `finish` is called.
+pub struct Section(Option<MutexGuard<'static, Recorder>>);
+
+/// Take the recorder lock so that the following atomic operation and its event are one step of the
+/// recorded linearisation.
+pub fn atomic_section() -> Section {
+    Section(recorder().map(|m| m.lock().unwrap_or_else(|e| e.into_inner())))
+}
+
+impl Section {
+    pub fn finish(mut self, remaining: usize) {
+        if let Some(r) = self.0.as_mut() {
+            write_line(r, format_args!("finish {remaining}"));
+        }
+    }
+}
+
+fn set_group(g: usize) {
+    CUR_GROUP.with(|c| c.set(g));
+}
+
+fn cur_group() -> usize {
+    CUR_GROUP.with(|c| c.get())
+}
+
+pub fn init(num_groups: usize) {
+    event(format_args!("init {num_groups}"));
+}
+
+pub fn activate(g: usize) {
+    set_group(g);
+    event(format_args!("activate {g}"));
+}
+
+pub fn lpush(g: usize, item: Item) {
+    event(format_args!("lpush {g} {item}"));
+}
+
+/// Called with the slot lock of `to` held, after `take` and `push`.
+pub fn send(to: usize, item: Item, took_worker: bool) {
+    if !enabled() {
+        return;
+    }
+    let from = cur_group();
+    let took = u8::from(took_worker);
+    if from == usize::MAX {
+        event(format_args!("send - {to} {item} {took}"));
+    } else {
+        event(format_args!("send {from} {to} {item} {took}"));
+    }
+}
+
+pub fn enter(g: usize) {
+    set_group(g);
+    event(format_args!("enter {g}"));
+}
+
+pub fn pop(g: usize, item: Item) {
+    event(format_args!("pop {g} {item}"));
+}
+
+/// Called with the slot lock of `g` held.
+pub fn park(g: usize) {
+    event(format_args!("park {g}"));
+    set_group(usize::MAX);
+}
+
+/// Called with the slot lock of `g` held, before the swap; `n` = `slot.work.len()`.
+pub fn swap(g: usize, n: usize) {
+    event(format_args!("swap {g} {n}"));
+}
+
+pub fn error(g: usize) {
+    event(format_args!("error {g}"));
+    set_group(usize::MAX);
+}
+
+pub fn delay(g: usize) {
+    event(format_args!("delay {g}"));
+    set_group(usize::MAX);
+}
+
+pub fn resume(g: usize) {
+    set_group(g);
+    event(format_args!("resume {g}"));
+}
+
+pub fn end(num_errors: usize, num_group_states: usize) {
+    event(format_args!("end {num_errors} {num_group_states}"));
+}
+
+fn splitmix(mut z: u64) -> u64 {
+    z = z.wrapping_add(0x9E37_79B9_7F4A_7C15);
+    z = (z ^ (z >> 30)).wrapping_mul(0xBF58_476D_1CE4_E5B9);
+    z = (z ^ (z >> 27)).wrapping_mul(0x94D0_49BB_1331_11EB);
+    z ^ (z >> 31)
+}
+
+/// Schedule perturbation at a protocol point (see module docs).
+pub fn perturb(point: u32) {
+    let Some(seed) = sched() else {
+        return;
+    };
+    let n = COUNTER.with(|c| {
+        let v = c.get();
+        c.set(v + 1);
+        v
+    });
+    let r = splitmix(
+        seed ^ splitmix(thread_no().wrapping_mul(0x1_0001).wrapping_add(u64::from(point)))
+            ^ splitmix(n),
+    );
+    match r & 7 {
+        0..=3 => {}
+        4 | 5 => std::thread::yield_now(),
+        6 => {
+            for _ in 0..((r >> 8) & 0x3ff) {
+                std::hint::spin_loop();
+            }
+        }
+        _ => std::thread::sleep(std::time::Duration::from_micros(10 + ((r >> 8) % 241))),
+    }
+}
